@@ -123,6 +123,16 @@ fn consume_iter<E: Elem, I: DoubleEndedIterator<Item = E>>(mut it: I, how: Consu
             std::mem::forget(it);
             return Ret::Elems(out);
         }
+        Consume::TakeForget(k) => {
+            for _ in 0..k {
+                match it.next() {
+                    Some(e) => out.push(take_elem(e)),
+                    None => break,
+                }
+            }
+            std::mem::forget(it);
+            return Ret::Elems(out);
+        }
     }
     drop(it);
     Ret::Elems(out)
@@ -602,9 +612,22 @@ impl<A: Elem, B: Elem> VecPair<A, B> {
                         Consume::All | Consume::AllBack => removed.len(),
                         Consume::Mixed(f, b) => (*f as usize + *b as usize).min(removed.len()),
                         Consume::DropNow | Consume::Forget => 0,
+                        Consume::TakeForget(k) => (*k as usize).min(removed.len()),
                     };
                     let out: Vec<(u32, u32)> = removed.iter().take(take).map(key).collect();
-                    drop(removed);
+                    if matches!(how, Consume::Forget | Consume::TakeForget(_)) {
+                        // a forgotten DrainFilter leaves the vector empty (its length was set to
+                        // zero up front); everything not handed out is leaked, never dropped
+                        let mut it = removed.into_iter();
+                        for _ in 0..take {
+                            drop(it.next());
+                        }
+                        std::mem::forget(it);
+                        let kept = std::mem::take(sv);
+                        std::mem::forget(kept);
+                    } else {
+                        drop(removed);
+                    }
                     Ret::Elems(out)
                 });
                 (rb, rs)
@@ -658,6 +681,37 @@ impl<A: Elem, B: Elem> VecPair<A, B> {
                     }
                 }
                 (rb.map(Ret::Flag), rs.map(Ret::Flag))
+            }
+            VOp::TryReserveLimited { n, exact, headroom } => {
+                let n = if A::ZST { *n } else { (*n).min(3000) };
+                let (cap_before, buf_before) = (bv.capacity(), bv.as_ptr() as usize);
+                let lim = bump.allocated_bytes().saturating_add(*headroom);
+                bump.set_allocation_limit(Some(lim));
+                let rb = b_call(|| if *exact { bv.try_reserve_exact(n).is_ok() } else { bv.try_reserve(n).is_ok() });
+                bump.set_allocation_limit(None);
+                match rb {
+                    Ok(true) => {
+                        if let Some(need) = len.checked_add(n) {
+                            if bv.capacity() < need {
+                                extra = Some(("C13", "reserve-not-honoured", format!("len {} + {} > capacity {}", len, n, bv.capacity())));
+                            }
+                        }
+                        let rs = s_call(|| if *exact { sv.try_reserve_exact(n).is_ok() } else { sv.try_reserve(n).is_ok() });
+                        (Ok(Ret::Flag(true)), rs.map(Ret::Flag))
+                    }
+                    Ok(false) => {
+                        // std has no such failure; the reference is "nothing happened"
+                        if bv.capacity() != cap_before || bv.as_ptr() as usize != buf_before {
+                            extra = Some((
+                                "C13",
+                                "failed-try-reserve-changed-the-vector",
+                                format!("capacity {} -> {} after try_reserve({}) returned Err", cap_before, bv.capacity(), n),
+                            ));
+                        }
+                        (Ok(Ret::Unit), Ok(Ret::Unit))
+                    }
+                    Err(()) => (Err(()), Ok(Ret::Unit)),
+                }
             }
             VOp::ShrinkToFit => (b_call(|| bv.shrink_to_fit()).map(|_| Ret::Unit), s_call(|| sv.shrink_to_fit()).map(|_| Ret::Unit)),
             VOp::CloneCmp => {
@@ -760,7 +814,21 @@ fn consume_forward<E: Elem, I: Iterator<Item = E>>(mut it: I, how: Consume) -> R
                 }
             }
         }
-        Consume::DropNow | Consume::Forget => {}
+        Consume::DropNow => {}
+        Consume::Forget => {
+            std::mem::forget(it);
+            return Ret::Elems(out);
+        }
+        Consume::TakeForget(k) => {
+            for _ in 0..k {
+                match it.next() {
+                    Some(e) => out.push(take_elem(e)),
+                    None => break,
+                }
+            }
+            std::mem::forget(it);
+            return Ret::Elems(out);
+        }
     }
     drop(it);
     Ret::Elems(out)
